@@ -24,6 +24,13 @@ ExportNear == (Mode = "trees" /\ done) =>
    \A r \in NearRenderings :
       /\ \A i \in 1..Len(r) : PrintT(<<"NEAR", ToJson(NearRec(DeleteAt(r, i)))>>)
       /\ \A i \in 1..Len(r) : (Quoted(r[i]) # r[i]) => PrintT(<<"NEAR", ToJson(NearRec(ReplaceAt(r, i, <<Quoted(r[i])>>)))>>)
+      \* "P": a primitive that has lost its argument (`matches`, `num-lines`, `==` without what must follow).  It is
+      \* no token of the grammar: whatever follows it - an operator, a parenthesis, the end of the line - is not
+      \* its argument (reserved words are no arguments), so the expression is malformed
+      /\ \A i \in 1..Len(r) : (r[i] \in {"T", "F"}) => PrintT(<<"NEAR", ToJson(NearRec(ReplaceAt(r, i, <<"P">>)))>>)
+      \* ... also when a reserved word stands where the argument would be and the REST is a well-formed expression
+      /\ \A i \in 1..Len(r) : \A x \in {"&&", "||", "!", "(", ")"} :
+            (r[i] \in {"T", "F"}) => PrintT(<<"NEAR", ToJson(NearRec(ReplaceAt(r, i, <<"P", x>>)))>>)
       /\ \A i \in 1..Len(r) : \A x \in Insertions :
             (x # <<r[i]>> /\ (i > 1 \/ x[1] # "NL")) => PrintT(<<"NEAR", ToJson(NearRec(ReplaceAt(r, i, x)))>>)
       /\ \A i \in 1..(Len(r) + 1) : \A x \in Insertions :
